@@ -108,8 +108,28 @@ func checkC27(c *Ctx) (string, []string) {
 								name = sc.String()
 								if reason, ok := copyingAPIs[name]; ok {
 									why = append(why, "passed to "+relName(name)+" ("+reason+")")
-								} else if sc.Pkg != nil && strings.HasPrefix(sc.Pkg.Pkg.Path(), modPath) {
-									unk = "passed to " + relName(name)
+								} else if sc.Pkg != nil && strings.HasPrefix(sc.Pkg.Pkg.Path(), modPath) && len(sc.Blocks) > 0 {
+									// a helper of the module: the slice is followed into it; if the helper can hand the same storage back, the result is followed too
+									for ai, a := range cc.Args {
+										if a == v && ai < len(sc.Params) {
+											hp := sc.Params[ai]
+											walk(hp)
+											aliasBack := false
+											allInstrs(sc, func(in ssa.Instruction) {
+												if r, isR := in.(*ssa.Return); isR {
+													for _, rv := range r.Results {
+														if seen[stripConv(rv)] || seen[rv] {
+															aliasBack = true
+														}
+													}
+												}
+											})
+											if aliasBack {
+												walk(x)
+											}
+											why = append(why, "followed into "+relName(name))
+										}
+									}
 								} else {
 									unk = "passed to " + name
 								}
@@ -152,6 +172,9 @@ func checkC27(c *Ctx) (string, []string) {
 				}
 				v := stripConv(rr[0])
 				shapes = append(shapes, abbr(exprStr(v, shapeOpts)))
+				if isFreshCopyRender(abbr(exprStr(v, robustOpts))) {
+					return
+				}
 				switch x := v.(type) {
 				case *ssa.Const, *ssa.MakeSlice:
 				case *ssa.Extract:
@@ -313,18 +336,7 @@ func checkC27(c *Ctx) (string, []string) {
 	lower := "append(append(make([]byte, 0), p1), p2)"
 	{
 		f := c.Fn(provRoot+"memory", "memoryDB.NewIterator")
-		conds := abbrAll(condShapes(f))
-		has := func(s string) bool {
-			for _, x := range conds {
-				if x == s {
-					return true
-				}
-			}
-			return false
-		}
-		c.Check(has("strings.HasPrefix(next(range(p0.data))#1, p1)"), "C27.iterator-range", funcKey(f)+" · prefix test", f.Pos(), "HasPrefix(key, prefix)", fmt.Sprintf("prefix predicate is not HasPrefix(key, prefix): %v", conds))
-		c.Check(has("(0 <= strings.Compare(next(range(p0.data))#1, "+lower+"))"), "C27.iterator-range", funcKey(f)+" · lower bound", f.Pos(), "key ≥ prefix ⌢ start", fmt.Sprintf("lower bound is not key ≥ prefix⌢start: %v", conds))
-		c27Both(c, f, "strings.HasPrefix(", "strings.Compare(")
+		c27MemorySelection(c, f)
 		ms := &moScope{c: c, rule: "C27.iterator-range", reviewed: map[string]string{}}
 		ms.checkMapOrder([]string{provRoot + "memory"}, func(fn string) bool { return strings.HasSuffix(fn, "iterator.go") })
 	}
@@ -376,13 +388,39 @@ func checkC27(c *Ctx) (string, []string) {
 				}
 			}
 		})
-		okL := len(ls["LowerBound"]) == 1 && ls["LowerBound"][0] == lower
-		okU := len(ls["UpperBound"]) == 1 && strings.HasSuffix(ls["UpperBound"][0], "NewIterator$1(p1)")
-		c.Check(okL && okU, "C27.iterator-range", funcKey(f)+" · bounds", f.Pos(), "LowerBound = prefix⌢start, UpperBound = successor(prefix)", fmt.Sprintf("pebble bounds are %v", ls))
-		if len(f.AnonFuncs) == 1 {
-			c27Successor(c, f.AnonFuncs[0])
+		var lowV, upV ssa.Value
+		allInstrs(f, func(in ssa.Instruction) {
+			if st, ok := in.(*ssa.Store); ok {
+				a := exprStr(st.Addr, shapeOpts)
+				if strings.HasSuffix(a, "pebble.IterOptions.LowerBound") {
+					lowV = st.Val
+				}
+				if strings.HasSuffix(a, "pebble.IterOptions.UpperBound") {
+					upV = st.Val
+				}
+			}
+		})
+		okL := false
+		if lowV != nil {
+			var ps []string
+			for _, p := range catValues(lowV) {
+				s := abbr(exprStr(p, robustOpts))
+				if src, ok := freshCopyOf(s); ok {
+					s = src
+				}
+				ps = append(ps, s)
+			}
+			okL = strings.Join(ps, " ⌢ ") == "p1 ⌢ p2"
+		}
+		var succ *ssa.Function
+		if call, ok := upV.(*ssa.Call); ok && len(call.Call.Args) == 1 && call.Call.Args[0] == ssa.Value(f.Params[1]) {
+			succ = call.Call.StaticCallee()
+		}
+		c.Check(okL && succ != nil, "C27.iterator-range", funcKey(f)+" · bounds", f.Pos(), "LowerBound = prefix⌢start, UpperBound = successor(prefix)", fmt.Sprintf("pebble bounds are %v", ls))
+		if succ != nil && len(succ.Blocks) > 0 {
+			c27Successor(c, succ)
 		} else {
-			c.Unknown("C27.iterator-range", funcKey(f)+" · successor", f.Pos(), "successor closure not found")
+			c.Unknown("C27.iterator-range", funcKey(f)+" · successor", f.Pos(), "successor function not found")
 		}
 	}
 
@@ -393,43 +431,79 @@ func checkC27(c *Ctx) (string, []string) {
 		del := c.Fn(provRoot+"memory", "batch.Delete")
 		com := c.Fn(provRoot+"memory", "batch.Commit")
 		app := "store &p0.writeOps ← append(p0.writeOps, [*alloc:internal/database/provider/memory.writeOp][:])"
-		c.checkEffects("C27.batch-log", M+"Put", put, effectShapesOpt(put, func(string) bool { return true }, true), []string{"copy(make([]byte, len(p1)), p1)", "copy(make([]byte, len(p2)), p2)", app})
-		c.checkEffects("C27.batch-log", M+"Delete", del, effectShapesOpt(del, func(string) bool { return true }, true), []string{"copy(make([]byte, len(p1)), p1)", app})
-		c.checkCondSet("C27.batch-log", M+"Put", put, nil)
-		c.checkCondSet("C27.batch-log", M+"Delete", del, nil)
+		for _, pf := range []*ssa.Function{put, del} {
+			// the only effect outside local storage is the append of one record to the log; no branching
+			var outside []string
+			allInstrs(pf, func(in ssa.Instruction) {
+				switch x := in.(type) {
+				case *ssa.Store:
+					if !rootedInLocal(x.Addr) {
+						outside = append(outside, "store "+exprStr(x.Addr, shapeOpts)+" ← "+exprStr(x.Val, shapeOpts))
+					}
+				case *ssa.MapUpdate:
+					if !rootedInLocal(x.Map) {
+						outside = append(outside, "mapset "+exprStr(x.Map, shapeOpts))
+					}
+				}
+			})
+			c.requireSet("C27.batch-log", funcKey(pf)+" · effects", pf.Pos(), "effects outside local storage", outside, []string{app})
+			c.Check(len(condAtoms(pf, robustOpts)) == 0, "C27.batch-log", funcKey(pf)+" · unconditional", pf.Pos(), "the record is appended unconditionally", fmt.Sprintf("logging is conditional on %v: an operation can be dropped or merged", condAtoms(pf, robustOpts)))
+		}
 		opFields := func(f *ssa.Function) map[string]string {
 			out := map[string]string{}
 			allInstrs(f, func(in ssa.Instruction) {
 				if st, ok := in.(*ssa.Store); ok {
 					a := exprStr(st.Addr, shapeOpts)
 					if i := strings.Index(a, "memory.writeOp."); i >= 0 {
-						out[a[i+len("memory.writeOp."):]] = exprStr(st.Val, shapeOpts)
+						v := exprStr(st.Val, robustOpts)
+						if src, ok := freshCopyOf(v); ok {
+							v = "copy of " + src
+						}
+						out[a[i+len("memory.writeOp."):]] = v
 					}
 				}
 			})
 			return out
 		}
 		pf, df := opFields(put), opFields(del)
-		c.Check(pf["key"] == "make([]byte, len(p1))" && pf["value"] == "make([]byte, len(p2))" && (pf["isDelete"] == "" || pf["isDelete"] == "false"), "C27.batch-log", M+"Put · record", put.Pos(), "record = (put, copy of key, copy of value)", fmt.Sprintf("Put records %v", pf))
-		c.Check(df["key"] == "make([]byte, len(p1))" && df["isDelete"] == "true" && df["value"] == "", "C27.batch-log", M+"Delete · record", del.Pos(), "record = (delete, copy of key)", fmt.Sprintf("Delete records %v", df))
-		c.checkCondSet("C27.batch-log", M+"Commit", com, []string{"(* < len(p0.writeOps))", "(nil == p0.db.data)", "p0.writeOps[*].isDelete"})
-		// arms of the replay
-		isDel := condEdges(com, func(v ssa.Value) (bool, bool) { return exprStr(v, shapeOpts) == "p0.writeOps[*].isDelete", true })
-		okArms := len(isDel) == 1
+		c.Check(pf["key"] == "copy of p1" && pf["value"] == "copy of p2" && (pf["isDelete"] == "" || pf["isDelete"] == "false"), "C27.batch-log", M+"Put · record", put.Pos(), "record = (put, copy of key, copy of value)", fmt.Sprintf("Put records %v", pf))
+		c.Check(df["key"] == "copy of p1" && df["isDelete"] == "true" && df["value"] == "", "C27.batch-log", M+"Delete · record", del.Pos(), "record = (delete, copy of key)", fmt.Sprintf("Delete records %v", df))
+		okArms := true
+		nput, ndel := 0, 0
 		allInstrs(com, func(in ssa.Instruction) {
+			want := int64(-1)
 			switch x := in.(type) {
 			case *ssa.MapUpdate:
-				if exprStr(x.Key, shapeOpts) != "p0.writeOps[*].key" || exprStr(x.Value, shapeOpts) != "p0.writeOps[*].value" || guardedBy(com, in, isDel) {
+				if exprStr(x.Key, robustOpts) != "p0.writeOps[*].key" || exprStr(x.Value, robustOpts) != "p0.writeOps[*].value" || exprStr(x.Map, robustOpts) != "p0.db.data" {
 					okArms = false
 				}
+				want = 0
+				nput++
 			case *ssa.Call:
 				if b, ok := x.Call.Value.(*ssa.Builtin); ok && b.Name() == "delete" {
-					if exprStr(x.Call.Args[1], shapeOpts) != "p0.writeOps[*].key" || !guardedBy(com, in, isDel) {
+					if exprStr(x.Call.Args[1], robustOpts) != "p0.writeOps[*].key" || exprStr(x.Call.Args[0], robustOpts) != "p0.db.data" {
 						okArms = false
 					}
+					want = 1
+					ndel++
+				}
+			}
+			if want < 0 {
+				return
+			}
+			for d := int64(0); d <= 1; d++ {
+				reached, ok := iterReaches(in, robustOpts, nil, func(s string) (int64, bool) {
+					if s == "p0.writeOps[*].isDelete" {
+						return d, true
+					}
+					return 0, false
+				})
+				if !ok || reached != (d == want) {
+					okArms = false
 				}
 			}
 		})
+		okArms = okArms && nput == 1 && ndel == 1
 		c.Check(okArms, "C27.batch-log", M+"Commit · replay", com.Pos(), "each record applied as delete(key) or data[key] = value by its own mark, in log order", "Commit does not apply each logged record according to its own delete mark")
 	}
 
@@ -490,6 +564,10 @@ func c27Successor(c *Ctx, cl *ssa.Function) {
 			}
 		}
 	})
+	if !(fresh && inc && trunc) && c27SuccessorStrip(cl) {
+		c.OK("C27.iterator-range", key+" · successor", cl.Pos(), "drops trailing 0xff bytes, copies the rest into a fresh slice of exactly that length and increments its last byte (nil when nothing is left)")
+		return
+	}
 	c.Check(fresh && inc && trunc, "C27.iterator-range", key+" · successor", cl.Pos(), "increments a private copy and returns it truncated after the incremented byte", fmt.Sprintf("successor computation: private copy=%v, increments=%v, truncates after the incremented byte=%v (an untruncated bound admits keys without the prefix)", fresh, inc, trunc))
 }
 
@@ -605,4 +683,215 @@ func c27Locks(c *Ctx) {
 		}
 	})
 	c.Check(nLock == 1 && len(selfLocking) == 0 && direct >= 2, "C27.batch-atomic", funcKey(commit)+" · one critical section", commit.Pos(), "one write-lock acquisition; puts and deletes applied directly to the map inside it", fmt.Sprintf("Commit acquires the write lock %d time(s), applies %d operations directly and calls self-locking methods %v: the batch is applied piecewise and readers can observe part of it", nLock, direct, selfLocking))
+}
+
+// isFreshCopyRender: the robust rendering of a value that is a newly made
+// slice filled from another one (make + copy, append to nil, bytes.Clone, a clone helper).
+func isFreshCopyRender(s string) bool {
+	_, ok := freshCopyOf(s)
+	return ok
+}
+
+func freshCopyOf(s string) (string, bool) {
+	for _, t := range []string{"uint8", "byte"} {
+		pre := "make([]" + t + ", len("
+		if strings.HasPrefix(s, pre) {
+			rest := s[len(pre):]
+			if k := strings.Index(rest, ")){[:] ⇐ "); k > 0 {
+				src := rest[:k]
+				if rest[k:] == ")){[:] ⇐ "+src+"}" {
+					return src, true
+				}
+			}
+		}
+	}
+	if strings.HasPrefix(s, "bytes.Clone(") && strings.HasSuffix(s, ")") {
+		return s[len("bytes.Clone(") : len(s)-1], true
+	}
+	if strings.HasPrefix(s, "slices.Clone(") && strings.HasSuffix(s, ")") {
+		return s[len("slices.Clone(") : len(s)-1], true
+	}
+	if strings.HasPrefix(s, "cat(") && strings.HasSuffix(s, ")") && !strings.Contains(s[4:len(s)-1], ", ") {
+		return s[4 : len(s)-1], true // append(nil/empty, x...)
+	}
+	return "", false
+}
+
+// c27MemorySelection: a key is collected exactly when it carries the prefix and is
+// >= prefix⌢start; decided as a truth table over the two tests, in either of the
+// two equivalent formulations (HasPrefix ∧ key >= prefix⌢start; CutPrefix ok ∧ rest >= start).
+func c27MemorySelection(c *Ctx, f *ssa.Function) {
+	o := robustOpts
+	var app *ssa.Call
+	allInstrs(f, func(in ssa.Instruction) {
+		if call, ok := in.(*ssa.Call); ok && app == nil {
+			if bi, ok := call.Call.Value.(*ssa.Builtin); ok && bi.Name() == "append" && strings.Contains(typeStr(call.Type()), "string") {
+				app = call
+			}
+		}
+	})
+	if app == nil {
+		c.Bad("C27.iterator-range", funcKey(f)+" · selection", f.Pos(), "no key-collecting append found")
+		return
+	}
+	key := "next(range(p0.data))#1"
+	full := "cat(p1, p2)"
+	cut := "strings.CutPrefix(" + key + ", p1)"
+	// atom 0: has prefix; atom 1: ordering test. Each returns (index, value transform)
+	type at struct {
+		idx int
+		f   func(has, ge int64) int64
+	}
+	classify := func(s string) (at, bool) {
+		switch s {
+		case "strings.HasPrefix(" + key + ", p1)", cut + "#1":
+			return at{0, func(h, g int64) int64 { return h }}, true
+		case "strings.Compare(" + key + ", " + full + ")":
+			return at{1, func(h, g int64) int64 { return 2*g - 1 }}, true // -1 / +1
+		case "(" + key + " < " + full + ")", "(" + cut + "#0 < p2)":
+			return at{1, func(h, g int64) int64 { return 1 - g }}, true
+		case "(" + full + " <= " + key + ")", "(p2 <= " + cut + "#0)":
+			return at{1, func(h, g int64) int64 { return g }}, true
+		case "(" + full + " < " + key + ")", "(p2 < " + cut + "#0)":
+			return at{-1, nil}, true // strict: excludes the key equal to the bound
+		}
+		return at{}, false
+	}
+	seenPrefix, seenOrder, strict := false, false, false
+	bad := ""
+	for m := 0; m < 4 && bad == ""; m++ {
+		has, ge := int64(m&1), int64(m>>1)
+		reached, ok := iterReaches(app, o, nil, func(s string) (int64, bool) {
+			a, is := classify(s)
+			if !is {
+				return 0, false
+			}
+			if a.idx < 0 {
+				strict = true
+				return 0, false
+			}
+			if a.idx == 0 {
+				seenPrefix = true
+			} else {
+				seenOrder = true
+			}
+			return a.f(has, ge), true
+		})
+		if !ok {
+			bad = "the selection depends on something other than (key carries the prefix, key ≥ prefix⌢start)"
+			break
+		}
+		if reached != (has == 1 && ge == 1) {
+			bad = fmt.Sprintf("with has-prefix=%d and key≥prefix⌢start=%d the key is collected=%v", has, ge, reached)
+		}
+	}
+	if strict {
+		bad = "the lower bound is strict: the key equal to prefix⌢start is skipped"
+	}
+	c.Check(bad == "" && seenPrefix && seenOrder, "C27.iterator-range", funcKey(f)+" · selection", app.Pos(), "a key is collected exactly when it carries the prefix and is ≥ prefix⌢start (4/4 rows)", "memory iterator selection: "+bad+fmt.Sprintf(" (prefix test seen=%v, order test seen=%v)", seenPrefix, seenOrder))
+	c.Check(abbr(exprStr(app.Call.Args[1], o)) == "["+key+"][:]", "C27.iterator-range", funcKey(f)+" · collected key", app.Pos(), "the tested key is the one collected", "the collected element is "+abbr(exprStr(app.Call.Args[1], o)))
+}
+
+// c27SuccessorStrip: the second recognised successor form — n = |prefix| minus
+// its trailing 0xff bytes; nil when n = 0; otherwise a fresh n-byte copy of
+// prefix[:n] whose last byte is incremented.
+func c27SuccessorStrip(f *ssa.Function) bool {
+	if len(f.Params) != 1 {
+		return false
+	}
+	p := f.Params[0]
+	var n *ssa.Phi
+	allInstrs(f, func(in ssa.Instruction) {
+		if ph, ok := in.(*ssa.Phi); ok && isIntegerT(ph.Type()) && len(ph.Edges) == 2 {
+			okLen, okDec := false, false
+			for _, e := range ph.Edges {
+				if call, isC := stripConv(e).(*ssa.Call); isC {
+					if b, isB := call.Call.Value.(*ssa.Builtin); isB && b.Name() == "len" && call.Call.Args[0] == ssa.Value(p) {
+						okLen = true
+					}
+				}
+				if b, isB := stripConv(e).(*ssa.BinOp); isB && b.Op == token.SUB && stripConv(b.X) == ssa.Value(ph) {
+					if k, ok := constInt(b.Y); ok && k == 1 {
+						okDec = true
+					}
+				}
+			}
+			if okLen && okDec {
+				n = ph
+			}
+		}
+	})
+	if n == nil {
+		return false
+	}
+	isNm1 := func(v ssa.Value) bool {
+		b, ok := stripConv(v).(*ssa.BinOp)
+		if !ok || b.Op != token.SUB || stripConv(b.X) != ssa.Value(n) {
+			return false
+		}
+		k, ok := constInt(b.Y)
+		return ok && k == 1
+	}
+	// the loop keeps stripping only while the last remaining byte is 0xff
+	stripOK := false
+	for _, a := range condShapes(f) {
+		if a == "(255 == p0[(phi((cyc - 1) | len(p0)) - 1)])" || a == "(255 != p0[(phi((cyc - 1) | len(p0)) - 1)])" {
+			stripOK = true
+		}
+	}
+	var m *ssa.MakeSlice
+	copyOK, incOK := false, false
+	allInstrs(f, func(in ssa.Instruction) {
+		switch x := in.(type) {
+		case *ssa.MakeSlice:
+			if stripConv(x.Len) == ssa.Value(n) {
+				m = x
+			}
+		}
+	})
+	if m == nil {
+		return false
+	}
+	allInstrs(f, func(in ssa.Instruction) {
+		switch x := in.(type) {
+		case ssa.CallInstruction:
+			if b, ok := x.Common().Value.(*ssa.Builtin); ok && b.Name() == "copy" && x.Common().Args[0] == ssa.Value(m) {
+				if sl, ok := x.Common().Args[1].(*ssa.Slice); ok && sl.X == ssa.Value(p) && sl.Low == nil && sl.High != nil && stripConv(sl.High) == ssa.Value(n) {
+					copyOK = true
+				}
+			}
+		case *ssa.Store:
+			if ia, ok := x.Addr.(*ssa.IndexAddr); ok && ia.X == ssa.Value(m) && isNm1(ia.Index) {
+				if b, ok := x.Val.(*ssa.BinOp); ok && b.Op == token.ADD {
+					if k, ok := constInt(b.Y); ok && k == 1 {
+						if ld, ok := b.X.(*ssa.UnOp); ok && ld.Op == token.MUL {
+							if ia2, ok := ld.X.(*ssa.IndexAddr); ok && ia2.X == ssa.Value(m) && isNm1(ia2.Index) {
+								incOK = true
+							}
+						}
+					}
+				}
+			}
+		}
+	})
+	retOK := true
+	sawM := false
+	allInstrs(f, func(in ssa.Instruction) {
+		if r, ok := in.(*ssa.Return); ok && len(r.Results) == 1 {
+			switch x := stripConv(r.Results[0]).(type) {
+			case *ssa.Const:
+				if !x.IsNil() {
+					retOK = false
+				}
+			case *ssa.MakeSlice:
+				if x != m {
+					retOK = false
+				}
+				sawM = true
+			default:
+				retOK = false
+			}
+		}
+	})
+	return stripOK && copyOK && incOK && retOK && sawM
 }
